@@ -418,20 +418,34 @@ func uploadqRun(tr *tracer, idx int, seed int64) {
 var plReqq = []int{-1, 0, 1, 5, 10000}
 var plMaxOut = []int{1, 2, 50}
 
+// order in which the scripted seeder rejects its open requests when it chokes (fast extension): the order in which they
+// arrived, the reverse, a random one, or ("dup", a hostile seeder) arrival order with the first reject message sent twice
+var plRej = []string{"fifo", "lifo", "shuf", "dup"}
+
+// pipelineRun: a LEECHING session against one scripted seeder that answers only on script and counts the requests that are
+// open ON THE WIRE (received and neither served, rejected nor cancelled; a second request for a block whose first request
+// is still open counts twice).  Script: unchoke, serve 3 blocks, choke in the middle of the first piece (not an allowed-fast
+// piece; with the fast extension every open request is rejected, in the order given by rej), unchoke, reject two more,
+// serve ONE block at a time to the end of that piece and into the next (the re-queued blocks are requested again there),
+// serve in bulk, choke / unchoke once more, one block at a time again.
 func pipelineRun(tr *tracer, idx int, seed int64) {
 	reqq := plReqq[idx%5]
 	maxout := plMaxOut[(idx/5)%3]
 	fast := (idx/15)%2 == 0
+	rej := plRej[idx%4]
+	rng := rand.New(rand.NewSource(seed))
 	if idx >= 30 {
-		rng := rand.New(rand.NewSource(seed))
-		reqq, maxout, fast = plReqq[rng.Intn(5)], plMaxOut[rng.Intn(3)], rng.Intn(2) == 0
+		reqq, maxout, fast, rej = plReqq[rng.Intn(5)], plMaxOut[rng.Intn(3)], rng.Intn(2) == 0, plRej[rng.Intn(4)]
+	}
+	if !fast {
+		rej = "none"
 	}
 	const defout = 3
-	tr.emit(ev{"op": "Init", "sub": "pipeline", "idx": idx, "reqq": reqq, "maxout": maxout, "defout": defout, "fast": fast})
+	tr.emit(ev{"op": "Init", "sub": "pipeline", "idx": idx, "reqq": reqq, "maxout": maxout, "defout": defout, "fast": fast, "rej": rej})
 	guard(tr, "pipeline", 60*time.Second, "scenario", func() {
 		e := newEnv(false)
 		defer e.close()
-		tor := vh.Build(flat("pl", 64*blk, 2, 0), seed, nil, nil)
+		tor := vh.Build(flat("pl", 16*blk, 4, 0), seed, nil, nil)
 		s, prov := e.session(func(c *torrent.Config) {
 			c.MaxRequestsOut = maxout
 			c.DefaultRequestsOut = defout
@@ -452,6 +466,12 @@ func pipelineRun(tr *tracer, idx int, seed int64) {
 			fmt.Fprintln(os.Stderr, "dial:", err)
 			os.Exit(2)
 		}
+		if p.fast != fast {
+			skip(e, tr, "pipeline", "fast extension not negotiated")
+			p.c.Close()
+			go s.Close()
+			return
+		}
 		d := vh.Dict{"m": vh.Dict{}, "v": "c17-seeder"}
 		if reqq >= 0 {
 			d["reqq"] = reqq
@@ -462,7 +482,7 @@ func pipelineRun(tr *tracer, idx int, seed int64) {
 		} else {
 			p.c.Send(vh.Msg{ID: vh.MsgBitfield, Data: vh.BitfieldBytes(tor.NumPieces, func(int) bool { return true })})
 		}
-		var out []vh.Msg // outstanding requests as the scripted side sees them
+		var out []vh.Msg // open requests as the scripted side sees them (a bag: the same block may be open twice)
 		choking := true
 		del := func(m vh.Msg) {
 			for i, x := range out {
@@ -497,10 +517,12 @@ func pipelineRun(tr *tracer, idx int, seed int64) {
 				}
 			}
 		}
+		served := 0
 		serve := func(k int) {
 			for i := 0; i < k && len(out) > 0; i++ {
 				m := out[0]
 				out = out[1:]
+				served++
 				tr.emit(ev{"op": "PLPiece", "p": m.Index, "b": m.Begin / blk})
 				pd := tor.PieceData(int(m.Index))
 				p.c.Send(vh.Msg{ID: vh.MsgPiece, Index: m.Index, Begin: m.Begin, Data: pd[m.Begin : m.Begin+m.Length]})
@@ -520,14 +542,31 @@ func pipelineRun(tr *tracer, idx int, seed int64) {
 			p.c.Send(vh.Msg{ID: vh.MsgUnchoke})
 			seen(false)
 		}
+		reject := func(m vh.Msg) {
+			tr.emit(ev{"op": "PLReject", "p": m.Index, "b": m.Begin / blk})
+			p.c.Send(vh.Msg{ID: vh.MsgReject, Index: m.Index, Begin: m.Begin, Length: m.Length})
+		}
 		choke := func() {
 			tr.emit(ev{"op": "PLChoke"})
 			choking = true
 			p.c.Send(vh.Msg{ID: vh.MsgChoke})
 			if p.fast {
-				for _, m := range out {
-					tr.emit(ev{"op": "PLReject", "p": m.Index, "b": m.Begin / blk})
-					p.c.Send(vh.Msg{ID: vh.MsgReject, Index: m.Index, Begin: m.Begin, Length: m.Length})
+				// only requests that are open are rejected (except the one repeated reject of the hostile variant)
+				o := append([]vh.Msg(nil), out...)
+				switch rej {
+				case "lifo":
+					for i, j := 0, len(o)-1; i < j; i, j = i+1, j-1 {
+						o[i], o[j] = o[j], o[i]
+					}
+				case "shuf":
+					rng.Shuffle(len(o), func(i, j int) { o[i], o[j] = o[j], o[i] })
+				}
+				for i, m := range o {
+					reject(m)
+					if rej == "dup" && i == 0 {
+						tr.emit(ev{"op": "PLHostile", "p": m.Index, "b": m.Begin / blk})
+						p.c.Send(vh.Msg{ID: vh.MsgReject, Index: m.Index, Begin: m.Begin, Length: m.Length})
+					}
 				}
 			}
 			out = nil
@@ -536,13 +575,20 @@ func pipelineRun(tr *tracer, idx int, seed int64) {
 			seen(true)
 			settle(400 * time.Millisecond)
 		}
+		// one block at a time: rain's reaction to each block (new requests) is on the wire before the next block is served
+		drain := func(steps int) {
+			for i := 0; i < steps && len(out) > 0; i++ {
+				serve(1)
+				settle(45 * time.Millisecond)
+			}
+		}
 		q := 150 * time.Millisecond
 		settle(q) // interested
 		unchoke()
 		settle(q)
 		serve(3)
 		settle(q)
-		choke()
+		choke() // in the middle of piece 0
 		settle(q)
 		unchoke()
 		settle(q)
@@ -550,21 +596,20 @@ func pipelineRun(tr *tracer, idx int, seed int64) {
 			for i := 0; i < 2 && len(out) > 0; i++ {
 				m := out[len(out)-1]
 				out = out[:len(out)-1]
-				tr.emit(ev{"op": "PLReject", "p": m.Index, "b": m.Begin / blk})
-				p.c.Send(vh.Msg{ID: vh.MsgReject, Index: m.Index, Begin: m.Begin, Length: m.Length})
+				reject(m)
 			}
 			settle(q)
 		}
-		for served := 0; served < 80 && len(out) > 0; { // across the piece boundary
-			k := len(out)
-			serve(k)
-			served += k
+		drain(18) // to the end of piece 0 (the rejected blocks are requested again there) and into piece 1
+		for n := served + 12; served < n && len(out) > 0; { // in bulk across the next piece boundary
+			serve(len(out))
 			settle(60 * time.Millisecond)
 		}
 		choke()
 		settle(q)
 		unchoke()
 		settle(q)
+		drain(18)
 		tr.emit(ev{"op": "PLEnd", "left": len(out)})
 		p.c.Close()
 		call(tr, "pipeline", "Session.Close", 30*time.Second, func() { s.Close() })
